@@ -43,3 +43,5 @@ def run(ctx: Ctx):
     frames.inputs_untouched(ctx, "R17.3")
     frames.exact_degeneracy_test(ctx, "R17.6")
     rotmat.rules(ctx)
+    from ..util import persistent_state
+    persistent_state(ctx, "R17.7", [f_ for f_ in (ctx.repo.func(q_, required=False) for q_ in ('calcule_base', 'rotation_matrix')) if f_ is not None], "building a frame or a rotation matrix")
